@@ -114,11 +114,11 @@ Proof.
   assert (Hn : vz (mulTV (of_cols x y n) w) = dot w n) by (destruct w, x, y, n; vunfold; cbn; ring).
   assert (Hd : dot (mulTV (of_cols x y n) w) (mulTV (of_cols x y n) w) = dot w w)
     by (apply rotation_mulTV_dot; auto).
-  rewrite Hn. clearbody w.
+  clearbody w.
   set (k := mulTV (of_cols x y n) w) in *. clearbody k.
   destruct k as [k0 k1 k2]. unfold dot in Hd at 1. cbn [vx vy vz] in *.
   cbn [add mul ROps] in Hd.
-  split; intros [A B]; split; auto; rewrite A in Hd; nra.
+  split; intros [A B]; split; try lra; nra.
 Qed.
 
 (** every exact box of a set is determined by support points along +-e_k *)
